@@ -1,7 +1,7 @@
 #!/bin/sh
 # usage: tools/try_seeded.sh <Cxx> <k> [check-prop...]   (uses /tmp/mut/<Cxx> worktree and its out/ dir)
 P=$1; K=$2; shift 2
-WT=/tmp/mut/$P; OUT=$WT/out
+WT=/tmp/mut/$P; OUT=$WT/${OUTDIR:-out}
 CHECKS=${@:-$P}
 git -C $WT checkout -q -- . ; git -C $WT checkout -q --detach $(git -C /repo rev-parse HEAD); git -C $WT status --short | grep -v "^?? out"
 echo "== demo without change"; ( cd $OUT && timeout 300 /venv/bin/python demo$K.py $WT >/tmp/mut/$P.demo$K.clean.log 2>&1; echo "exit $?" )
